@@ -11,12 +11,14 @@ import (
 	"encoding/json"
 	"fmt"
 	"os"
+	"path/filepath"
 	"sort"
 	"strings"
 
 	"github.com/thought-machine/please/src/build"
 	"github.com/thought-machine/please/src/core"
 	"github.com/thought-machine/please/src/parse"
+	"github.com/thought-machine/please/verifharness/hist"
 	"github.com/thought-machine/please/verifharness/lib"
 )
 
@@ -756,12 +758,59 @@ func main() {
 			r.Violate(class, nil, "")
 		}
 	}
+	hstates, htrans, hcomplete := historyTier(r)
+	if !hcomplete {
+		exhaustive = false
+	}
+	r.Assume = append(r.Assume, "history tier: a target whose command is set by its pre-build function from a label of its dependency; with the real binary, after every history of edits of that label the target's output must be what a clean build produces - the hash that decides about rebuilding has to be the one taken after the pre-build function ran")
 	r.Finish(lib.Coverage{
-		Evaluations:        pairs,
-		DistinctNontrivial: nontrivial,
+		Evaluations:        pairs + htrans,
+		DistinctNontrivial: nontrivial + hstates,
 		Rule:               "a case is an unordered pair of definitions that differ in exactly one build_rule argument (one of the statement's attributes), both parsed by the real parser and hashed by the real RuleHash; every pair of values of the attribute's value space is compared for every applicable base definition; non-trivial = the two values differ in meaning (canonical forms differ)",
 		Samples:            samples.List(),
 		Exhaustive:         exhaustive,
-		Extra:              map[string]any{"definitions_hashed": values, "attributes": perAttr},
+		Extra:              map[string]any{"definitions_hashed": values, "attributes": perAttr, "history_tier_states": hstates, "history_tier_transitions": htrans},
 	})
+}
+
+// historyTier: a definition that changes only through a pre-build function (engine E3, real binary). "Please never treats a
+// changed definition as unchanged" also when the change reaches the target through set_command() in its pre-build function.
+func historyTier(r *lib.Run) (int, int, bool) {
+	plz := os.Getenv("VERIF_PLZ")
+	if plz == "" {
+		lib.Fatal("VERIF_PLZ not set (the driver builds plz for the history tier)")
+	}
+	root := filepath.Join(lib.VerifRoot, ".work", "hist", "C08")
+	os.RemoveAll(root)
+	defer os.RemoveAll(root)
+	plz = hist.PrivatePlz(plz, filepath.Join(root, "bin"))
+	fam := hist.PreFam{WithNoop: true, WithRm: !r.Quick()}
+	depth := 2
+	if !r.Quick() {
+		depth = 3
+	}
+	e := hist.NewEngine(plz, filepath.Join(root, "pre"), fam)
+	noCache := "[cache]\ndir =\n"
+	visit := func(from *hist.State, ed hist.Edit, obs *hist.Obs, dir string) (any, string) {
+		var history []string
+		if from != nil {
+			history = append(append(history, from.Hist...), ed.Name)
+		} else {
+			history = []string{"init"}
+			if obs.Exit != 0 {
+				lib.Fatal("the initial tree of the pre-build family does not build (vacuous scenario):\n%s", obs.Output)
+			}
+		}
+		if obs.Exit == -9 {
+			return nil, ""
+		}
+		clean := e.CleanObs(ed.Src, noCache)
+		if d := hist.DiffOuts(obs, clean); d != "" {
+			r.Violate("history:definition-changed-through-pre-build-function:treated-as-unchanged:"+ed.Kind, map[string]any{"family": "prebuild", "history": history},
+				"after this history the target's output is not what its current effective definition produces (clean build):\n"+d+"commands executed: "+fmt.Sprint(obs.Actions))
+		}
+		return nil, ""
+	}
+	st := e.BFS(depth, noCache, visit, r.OutOfTime)
+	return st.States, st.Transitions, st.Complete
 }
